@@ -77,8 +77,8 @@ func TestMain(m *testing.M) {
 		evid.Spec{Name: "TestReplay", Kind: "plain", QuickShards: 1, ThoroughShards: 1},
 		evid.Spec{Name: "TestEnumSmall", Kind: "plain", QuickShards: 16, ThoroughShards: 16, TimeoutS: 3000},
 		evid.Spec{Name: "TestEnumAboveBuffer", Kind: "plain", QuickShards: 16, ThoroughShards: 16, TimeoutS: 3000},
-		evid.Spec{Name: "TestPropRandomFaults", Kind: "rapid", Quick: 800, Thorough: 24000, QuickShards: 8, ThoroughShards: 16, TimeoutS: 3000},
-		evid.Spec{Name: "TestPropCommands", Kind: "rapid", Quick: 240, Thorough: 4000, QuickShards: 8, ThoroughShards: 16, TimeoutS: 3000},
+		evid.Spec{Name: "TestPropRandomFaults", Kind: "rapid", Quick: 560, Thorough: 24000, QuickShards: 8, ThoroughShards: 16, TimeoutS: 3000},
+		evid.Spec{Name: "TestPropCommands", Kind: "rapid", Quick: 160, Thorough: 4000, QuickShards: 8, ThoroughShards: 16, TimeoutS: 3000},
 	)
 	evid.Helpers("faultcmd")
 	evid.Commands("obiconvert", "obicsv")
